@@ -6,10 +6,14 @@
 package ekit
 
 import (
+	"bytes"
 	"encoding/json"
 	"flag"
 	"fmt"
+	"io"
 	"os"
+	"os/exec"
+	"regexp"
 	"sort"
 	"strings"
 	"sync"
@@ -138,6 +142,8 @@ func Main() {
 	budget := flag.Duration("budget", 10*time.Minute, "")
 	only := flag.String("only", "", "")
 	list := flag.Bool("list", false, "")
+	child := flag.Bool("child", false, "run the scenarios in this process (the parent isolates each scenario in a child so that a crash of the library is a verdict, not a tool failure)")
+	exact := flag.String("scenario", "", "exact scenario name (child mode)")
 	flag.Parse()
 	if *list {
 		var ps []string
@@ -165,6 +171,18 @@ func Main() {
 		if *only != "" && !strings.Contains(sc.Name, *only) {
 			continue
 		}
+		if *exact != "" && sc.Name != *exact {
+			continue
+		}
+		if !*child {
+			left := *budget - time.Since(start)
+			if left < 10*time.Second {
+				left = 10 * time.Second
+			}
+			st := runIsolated(sc.Name, *prop, *tier, *tmp, left, part)
+			part.Scenarios = append(part.Scenarios, st...)
+			continue
+		}
 		st := &Stats{Scenario: sc.Name, Mode: "enum", Counters: map[string]int{}, Exhaustive: true, distinct: map[string]bool{}, deadline: start.Add(*budget)}
 		t0 := time.Now()
 		func() {
@@ -189,4 +207,125 @@ func Main() {
 		fmt.Fprintln(os.Stderr, "INTERNAL:", part.Internal)
 		os.Exit(2)
 	}
+}
+
+
+// ---------------------------------------------------------------------------
+// scenario isolation
+
+var frameRe = regexp.MustCompile(`(?m)^(go\.nanomsg\.org/mangos/v3[^\s(]*(?:\([^)]*\))?[^\s(]*)\(`)
+
+// runChild runs one scenario in a child process; ok is false when the child died.
+func runChild(name, prop, tier, tmp string, budget time.Duration) (st []*Stats, internal string, stderr string, ok bool) {
+	pf, err := os.CreateTemp(tmp, "ve-part-*.json")
+	if err != nil {
+		return nil, err.Error(), "", false
+	}
+	pf.Close()
+	defer os.Remove(pf.Name())
+	cmd := exec.Command(os.Args[0], "-child", "-prop", prop, "-tier", tier, "-tmp", tmp, "-budget", budget.String(), "-scenario", name, "-part", pf.Name())
+	var eb bytes.Buffer
+	cmd.Stdout = os.Stdout
+	cmd.Stderr = io.MultiWriter(&eb, os.Stderr)
+	err = cmd.Run()
+	stderr = eb.String()
+	if len(stderr) > 1<<16 {
+		stderr = stderr[:1<<15] + "\n...\n" + stderr[len(stderr)-(1<<15):]
+	}
+	b, rerr := os.ReadFile(pf.Name())
+	var p Part
+	if rerr == nil && len(b) > 0 && json.Unmarshal(b, &p) == nil {
+		return p.Scenarios, p.Internal, stderr, true
+	}
+	_ = err
+	return nil, "", stderr, false
+}
+
+// runIsolated runs the scenario in a child.  If the child is killed by a Go panic or fatal error
+// raised on a goroutine of the library (first frame of the dying goroutine inside mangos, outside
+// this harness), and that recurs in two further runs, the crash is the verdict: no input may bring
+// the process down.  Anything else that kills the child is a tool failure.
+func runIsolated(name, prop, tier, tmp string, budget time.Duration, part *Part) []*Stats {
+	t0 := time.Now()
+	st, internal, stderr, ok := runChild(name, prop, tier, tmp, budget)
+	if ok {
+		part.Internal += internal
+		return st
+	}
+	sig, msg := crashSig(stderr)
+	if sig == "" {
+		part.Internal += fmt.Sprintf("scenario %s: child process died without a result:\n%s\n", name, tail(stderr, 2000))
+		return nil
+	}
+	sigs := map[string]string{sig: msg}
+	cnt := map[string]int{sig: 1}
+	for i := 0; i < 2; i++ {
+		_, _, e2, ok2 := runChild(name, prop, tier, tmp, budget)
+		s2, m2 := crashSig(e2)
+		if ok2 || s2 == "" {
+			part.Internal += fmt.Sprintf("scenario %s: child process crashed (%s) but run %d did not crash in the library again (%q)\n", name, sig, i+2, s2)
+			return nil
+		}
+		sigs[s2] = m2
+		cnt[s2]++
+	}
+	r := &Stats{Scenario: name, Mode: "enum", Counters: map[string]int{}, Exhaustive: false, CapHit: "the process running the enumeration was brought down by the library (3 of 3 runs)", WallS: time.Since(t0).Seconds()}
+	var keys []string
+	for k := range sigs {
+		keys = append(keys, k)
+	}
+	sort.Strings(keys)
+	for _, k := range keys {
+		r.Violations = append(r.Violations, &Violation{Sig: k, Kind: "panic", Count: cnt[k], Input: "scenario " + name + " (" + tier + "): re-run `ve.bin -child -prop " + prop + " -tier " + tier + " -scenario " + name + "`",
+			Message: "the process was killed by the library while the cases of this scenario ran (3 of 3 runs): " + sigs[k]})
+	}
+	fmt.Printf("  %-34s enum  CRASHED (3/3): %s\n", name, strings.Join(keys, " | "))
+	return []*Stats{r}
+}
+
+func tail(s string, n int) string {
+	if len(s) > n {
+		return s[len(s)-n:]
+	}
+	return s
+}
+
+var numRe = regexp.MustCompile(`[0-9]+`)
+
+// crashSig extracts "crash:<panic message without numbers>@<first mangos frame>" from a Go crash dump.
+func crashSig(stderr string) (string, string) {
+	i := strings.Index(stderr, "\npanic: ")
+	k := 8
+	if i < 0 && strings.HasPrefix(stderr, "panic: ") {
+		i, k = -1, 7
+	}
+	if i < 0 && k == 8 {
+		i = strings.Index(stderr, "\nfatal error: ")
+		k = 14
+		if i < 0 {
+			return "", ""
+		}
+	}
+	rest := stderr[i+1:]
+	line := rest
+	if j := strings.IndexByte(rest, '\n'); j >= 0 {
+		line = rest[:j]
+	}
+	g := strings.Index(rest, "\ngoroutine ")
+	if g < 0 {
+		return "", ""
+	}
+	dump := rest[g:]
+	if e := strings.Index(dump[1:], "\n\n"); e >= 0 {
+		dump = dump[:e+1] // the dying goroutine only
+	}
+	m := frameRe.FindStringSubmatch(dump)
+	if m == nil {
+		return "", ""
+	}
+	fn := strings.TrimPrefix(m[1], "go.nanomsg.org/mangos/v3/")
+	if strings.HasPrefix(fn, "ve/") {
+		return "", "" // the harness itself: a tool failure
+	}
+	return "crash:" + numRe.ReplaceAllString(line, "N") + "@" + fn, line + " in " + fn + "\n" + tail(dump, 1500)
 }
